@@ -14,6 +14,11 @@ of code whose correctness is visible in their shape; those are decided:
                masks of phases are what their names say: superset_minimal(b) <=> some minimal[i] is a subset of b
                ((b | minimal[i]) == b), subset_bad(b) <=> b is a subset of some bad[i] ((b | bad[i]) == bad[i]),
                subset_minimal(b) <=> b is a subset of some minimal[i]
+  C18.spread   "each analytical adjustment within its declared uncertainty": an uncertainty declared for an element by its primary
+               name (-balances S 0.01) belongs to EVERY valence state of that element: the loop of tidy_inverse that matches
+               constraint rows by `row.master->elt->primary` (a many-to-one projection) must visit all matching rows - it may
+               not leave at the first match - and must copy the uncertainty of every solution; the sibling loop that matches
+               rows by identity (`row.master`) may stop at its single match
 Not decided: mole balance of every element within the uncertainties, the min..max ranges, which subsets the search visits
 (all outcomes of the solver).
 """
@@ -178,6 +183,7 @@ def run(P, R, tier):
     else:
         R.anchor_missing("C18.sign", "switch over the phase constraint (model file) not found")
 
+    spread_rule(P, R)
     # ------------------------------------------------------------------ set predicates
     R.rule("C18.sets", "superset_minimal / subset_bad / subset_minimal test the inclusions their names state", minimum=3)
     for q, store, kind in (("superset_minimal", "minimal", "super"), ("subset_bad", "bad", "sub"), ("subset_minimal", "minimal", "sub")):
@@ -216,3 +222,42 @@ def run(P, R, tier):
             R.ok("C18.sets", q, "(bits | %s[i]) == %s" % (store, "bits" if kind == "super" else store + "[i]"))
         else:
             R.violation("C18.sets", q, "%s does not test that %s: %s" % (q, "some %s[i] is a subset of bits" % store if kind == "super" else "bits is a subset of some %s[i]" % store, why), **where)
+
+
+def spread_rule(P, R):
+    R.rule("C18.spread", "uncertainties declared for an element's primary name are copied to every valence-state row, for every solution", minimum=2)
+    f = P.one("Phreeqc::tidy_inverse")
+    where = dict(file=f["file"], function=f["q"])
+    n = 0
+    for lp in T.walk(f["body"]):
+        if lp[0] != "For":
+            continue
+        body = lp[5][2] if lp[5][0] == "Compound" else [lp[5]]
+        for st in body:
+            if not (T.is_node(st) and st[0] == "If"):
+                continue
+            c = T.strip_casts(st[2])
+            if not (c[0] == "Bin" and c[2] == "=="):
+                continue
+            sides = [T.strip_casts(c[3]), T.strip_casts(c[4])]
+            proj = [s_ for s_ in sides if s_[0] == "Member" and s_[2].split("::")[-1] == "primary" and "inv_elts" in T.text(s_)]
+            copies = [w for w in T.walk(st[3]) if w[0] == "Bin" and w[2] == "=" and "uncertainties" in T.text(w[3]) and "uncertainties" in T.text(w[4])]
+            if not proj or not copies:
+                continue
+            n += 1
+            inst = "tidy_inverse:primary-match@%d" % st[1]
+            brk = [w for w in T.walk(st[3]) if w[0] in ("Break", "Goto", "Return")]
+            inner_break = [w for l2 in T.walk(st[3]) if l2[0] == "For" for w in T.walk(l2[5]) if w[0] == "Break"]
+            brk = [w for w in brk if w not in inner_break]
+            if brk:
+                R.violation("C18.spread", inst, "the loop that spreads an element's declared uncertainty over the rows of all its valence states leaves at the first match (line %d): the other "
+                            "valence states keep the global uncertainty and models violating the declared one are reported" % brk[0][1], line=brk[0][1], **where)
+            else:
+                R.ok("C18.spread", inst, "every row whose element has this primary master is visited")
+            inner = [l2 for l2 in T.walk(st[3]) if l2[0] == "For" and any(w in copies for w in T.walk(l2[5]))]
+            if inner and "count_solns" in T.text(inner[0][3]):
+                R.ok("C18.spread", inst + ":solutions", "copied for every solution")
+            else:
+                R.violation("C18.spread", inst + ":solutions", "the declared uncertainties are not copied for every solution (loop bound `%s`)" % (T.text(inner[0][3]) if inner else "?"), line=st[1], **where)
+    if n == 0:
+        R.anchor_missing("C18.spread", "tidy_inverse: the loop matching rows by elt->primary was not found")
